@@ -73,7 +73,8 @@ def corr_stage(scen, quick, thorough, params=None, feature=None, race=False, tim
             prm = dict(params or {})
             if ctx.tier_budget == "thorough" and tparams:
                 prm.update(tparams)
-            rc, rec, txt = vlib.run_sharded(exe, scen, seed, n, prm, shards, timeout=timeout)
+            tmo = timeout if ctx.tier_budget == "thorough" else min(timeout, 300)
+            rc, rec, txt = vlib.run_sharded(exe, scen, seed, n, prm, shards, timeout=tmo)
             entry = dict(scenario=scen, seed=seed, n=n, params=params or {}, rc=rc)
             if rc != 0:
                 tail = "\n".join(txt.strip().split("\n")[-40:])
